@@ -787,8 +787,25 @@ def scan_guards(repo, consts, flags):
         body = norm(ac[pcv.end() - 1:match_brace(ac, pcv.end() - 1)])
         g['conversion_cycle_guard'] = bool(re.search(
             r'if \(larger\.has_commodity\(\)\) for \(const commodity_t \* comm = &smaller\.commodity\(\); ; \) \{ '
-            r'if \(\*comm == larger\.commodity\(\)\) throw_ ?\(amount_error,[^;]*\); if \(! comm->smaller\(\)\) break; '
+            r'if \((?:\*comm == larger\.commodity\(\)|comm->referent\(\) == larger\.commodity\(\)\.referent\(\))\) throw_ ?\(amount_error,[^;]*\); if \(! comm->smaller\(\)\) break; '
             r'comm = &comm->smaller\(\)->commodity\(\); \} larger \*= smaller\.number\(\);', body))
+    g['conversion_cycle_by_referent'] = bool(g['conversion_cycle_guard'] and pcv and
+                                             'comm->referent() == larger.commodity().referent()' in body)
+    # op.h / op.cc: compile() and calc() refuse to recurse deeper than MAX_DEPTH
+    oh = strip_comments(open(os.path.join(src, 'op.h'), errors='replace').read())
+    oc = norm(strip_comments(open(os.path.join(src, 'op.cc'), errors='replace').read()))
+    g['calc_depth_limit'] = None
+    md = re.search(r'static\s+const\s+int\s+MAX_DEPTH\s*=\s*(\d+)\s*;', oh)
+    if md and re.search(r'expr_t::ptr_op_t result; if \(depth > MAX_DEPTH\) throw_ ?\(compile_error,', oc) and \
+       re.search(r'value_t expr_t::op_t::calc\(scope_t& scope, ptr_op_t \* locus, const int depth\) \{ try \{ value_t result; '
+                 r'if \(depth > MAX_DEPTH\) throw_ ?\(calc_error,', oc):
+        g['calc_depth_limit'] = int(md.group(1))
+    # format.cc parse_elements bounds the field widths while it reads their digits
+    fmt_src = norm(strip_comments(open(os.path.join(src, 'format.cc'), errors='replace').read()))
+    g['format_width_limit'] = None
+    mw = re.search(r'const std::size_t max_field_width = (\d+);', fmt_src)
+    if mw and len(re.findall(r"num \+= static_cast<std::size_t>\(\*p\+\+ - '0'\); if \(num > max_field_width\) throw_ ?\(format_error,", fmt_src)) == 2:
+        g['format_width_limit'] = int(mw.group(1))
     # amount.cc in_place_roundto refuses more places than precision_t counts (uint_least16_t)
     g['roundto_places_limit'] = None
     rt = re.search(r'void amount_t::in_place_roundto\s*\(int places\)\s*\{', ac)
@@ -816,6 +833,18 @@ def scan_guards(repo, consts, flags):
     acc = strip_comments(open(os.path.join(src, 'account.cc'), errors='replace').read())
     fa = re.search(r'account_t::find_account\s*\([^)]*\)\s*\{', acc)
     g['find_account_no_frame_buffer'] = bool(fa and not re.search(r'\bchar\s+\w+\s*\[', acc[fa.end():match_brace(acc, fa.end() - 1)]))
+    # format.cc parse_elements, `%$N`: a template must exist, N must be 1-9 or A-F, the walk along the
+    # template's element list tests the pointer in the loop condition and after the loop
+    fm = norm(strip_comments(open(os.path.join(src, 'format.cc'), errors='replace').read()))
+    g['format_field_ref_guard'] = bool(re.search(
+        r"case '\$': \{ if \(! tmpl\) throw_ ?\(format_error,[^;]*\); p\+\+; "
+        r"if \(\*p == '0' \|\| \(! std::isdigit\(static_cast<unsigned char>\(\*p\)\) && \*p != 'A' && \*p != 'B' && \*p != 'C' && "
+        r"\*p != 'D' && \*p != 'E' && \*p != 'F'\)\) throw_ ?\(format_error,[^;]*\); "
+        r"int index = std::isdigit\(static_cast<unsigned char>\(\*p\)\) \? \*p - '0' : \(\*p - 'A' \+ 10\); "
+        r"element_t \* tmpl_elem = tmpl->elements\.get\(\); "
+        r"for \(int i = 1; i < index && tmpl_elem; i\+\+\) \{ tmpl_elem = tmpl_elem->next\.get\(\); "
+        r"while \(tmpl_elem && tmpl_elem->type != element_t::EXPR\) tmpl_elem = tmpl_elem->next\.get\(\); \} "
+        r"if \(! tmpl_elem\) throw_ ?\(format_error,[^;]*\); \*current = \*tmpl_elem; break; \}", fm))
     # (d) the period parser rejects `every 0 <unit>`
     tc = strip_comments(open(os.path.join(src, 'times.cc'), errors='replace').read())
     m = re.search(r'case\s+lexer_t::token_t::TOK_EVERY\s*:(.*?)case\s+lexer_t::token_t::TOK_YEARS', tc, re.S)
@@ -905,6 +934,12 @@ def generate(repo):
           'Definition src_no_xact_journal_master : bool := %s.' % bl(g['no_xact_journal_master']),
           '(* account.cc find_account (recursive, one call per name segment) declares no fixed char array *)',
           'Definition src_find_account_no_frame_buffer : bool := %s.' % bl(g['find_account_no_frame_buffer']),
+          '(* the repairs proposed for F50, F51, F52: false / None while they are not in the source *)',
+          'Definition src_conversion_cycle_by_referent : bool := %s.' % bl(g['conversion_cycle_by_referent']),
+          'Definition src_calc_depth_limit : option Z := %s.' % opt(g['calc_depth_limit']),
+          'Definition src_format_width_limit : option Z := %s.' % opt(g['format_width_limit']),
+          '(* format.cc parse_elements `%$N`: template / index / null tests exactly as modelled in Model/FormatRef.v *)',
+          'Definition src_format_field_ref_guard : bool := %s.' % bl(g['format_field_ref_guard']),
           '(* utils.h: assert(x) throws assertion_failed (NO_ASSERTS 0 unless DISABLE_ASSERTS) *)',
           'Definition src_asserts_throw : bool := %s.' % ('true' if flags['asserts'] else 'false'),
           '(* utils.h: READ_INTO / READ_INTO_ are textually the loops transcribed in Model/Buffers.v *)',
